@@ -16,6 +16,7 @@ import Np.Model.RoutingTables
 import Np.Model.Maps
 import Np.Model.Div
 import Np.Model.Text
+import Np.Model.Print
 /-! line-protocol driver: one JSON case per line on stdin, the model's answer per line on stdout -/
 open Lean Np Np.Shape
 
@@ -397,6 +398,34 @@ def runCase (j : Json) : E Json := do
       ("parsed", match back with
         | some b => Json.mkObj [("names", toJson b.names), ("keys", toJson b.keys), ("shape", toJson b.shape)]
         | none => Json.null)])
+  | "print" =>
+    -- tokens of every element of the array, and their rendering with the coefficient texts supplied by the harness
+    let a ← parseArr (← j.getObjVal? "a")
+    let opts := (j.getObjVal? "opts").toOption.getD (Json.mkObj [])
+    let g := jBoolD opts "display_graded" true
+    let r := jBoolD opts "display_reverse" false
+    let inv := jBoolD opts "display_inverse" true
+    let mult := ((opts.getObjVal? "display_multiply").toOption.bind (·.getStr?.toOption)).getD "*"
+    let exp := ((opts.getObjVal? "display_exponent").toOption.bind (·.getStr?.toOption)).getD "**"
+    let names := a.poly.names.map fun n => "q" ++ toString n
+    -- coefficient texts: one list per element, aligned with the stored terms
+    let texts ← (← jList (← j.getObjVal? "texts")).mapM fun row => do (← jList row).mapM fun x => x.getStr?
+    let zeroText ← (← j.getObjVal? "zero").getStr?
+    let m := size a.shape
+    let elems := (List.finRange m).map fun i =>
+      let ts := a.poly.terms.map fun t => (t.1, t.2.get i)
+      let txt := texts.getD i.val []
+      -- index of a term = position of its exponent row among the stored rows
+      let showC := fun (t : Print.Tok CRat) => txt.getD ((a.poly.terms.map (·.1)).idxOf t.expo) "?"
+      let toks := Print.printTokens g r inv ts
+      let text := if toks.isEmpty then zeroText else
+        (toks.foldl (fun (acc : String × Bool) t =>
+          let s := Print.termText mult exp names (fun _ => showC t) t
+          let s := if acc.2 && !(s.startsWith "-") then "+" ++ s else s
+          (acc.1 ++ s, true)) ("", false)).1
+      Json.mkObj [("text", text), ("tokens", Json.arr (toks.map fun t =>
+        Json.arr #[showCoef t.coef, toJson t.expo, toJson t.coefShown]).toArray)]
+    pure (Json.mkObj [("status", "ok"), ("kind", "print"), ("elements", Json.arr elems.toArray)])
   | _ => throw s!"bad-op {op}"
 
 def step (line : String) : String :=
